@@ -94,6 +94,12 @@ Definition ops_closed (index : nat) : bool :=
               forallb (fun p => forallb (fun q => existsb (iop_eqb (compose p q)) ng) ng) ng
   | None => false
   end.
+(* the same demands on an operator list observed through the public API *)
+Definition list_closed (g : list iop) : bool :=
+  let ng := map norm g in forallb (fun p => forallb (fun q => existsb (iop_eqb (compose p q)) ng) ng) ng.
+Definition list_wellformed (g : list iop) : bool :=
+  (distinct g && forallb (fun p => let d := det (fst p) in Z.eqb d 1 || Z.eqb d (-1)) g)%bool.
+Definition identity_first (g : list iop) : bool := match g with p :: _ => iop_eqb p identity_iop | [] => false end.
 (* index -> symbols -> index, both tables *)
 Definition symbols_roundtrip (index : nat) : bool :=
   match hm_for_index index, hall_for_index index, Symmetry_from_index index with
@@ -147,6 +153,17 @@ Definition run_c17 (x : sx) : sx :=
       SL [sopt (fun s => SS (list_ascii_of_string s)) (hm_for_index k); sopt (fun s => SS (list_ascii_of_string s)) (hall_for_index k);
           sopt snat (Symmetry_z k); sopt (fun g : list iop => SL (map show_iop g)) (group_ops k)]
   | SL [SY "cryst1"; SZ i] => sopt snat (cryst1_roundtrip (Z.to_nat i))
+  (* the operator list the implementation returned, judged by the demands of the property *)
+  | SL [SY "group"; SZ _; SL ops] =>
+      let zs := fun l => all_some (map (fun v => match v with SZ z => Some z | _ => None end) l) in
+      match all_some (map (fun o => match o with
+                                    | SL [SL r; SL t] => match zs r, zs t with Some r', Some t' => Some (r', t') | _, _ => None end
+                                    | _ => None end) ops) with
+      | None => SY "not-an-integer-operator"
+      | Some g => if negb (identity_first g) then SY "identity-not-first"
+                  else if negb (list_wellformed g) then SY "not-wellformed"
+                  else if negb (list_closed g) then SY "not-closed" else SY "ok"
+      end
   (* what the property demands of both round trips and of the scaled operators *)
   | SL [SY "cryst1spec"; SZ i] => sopt snat (Some (Z.to_nat i))
   | SL [SY "expect"; SZ i; _] => sopt snat (Some (Z.to_nat i))
